@@ -112,5 +112,206 @@ ENCODE = Contract(
     external=['is-bytes'],
 )
 
-CONTRACTS = [ENCODE_TAG, ENCODE_LENGTH, ENCODE]
 
+# ---- content encoders of the primitive types (each also establishes valid(codec): primitive codecs return
+#      isConstructed == False, and non-octets content is a tuple of ints in range(256)) ----------------------------
+from pyvc.core import CallContract as _CC
+from contracts import integer as _integer
+
+CODEC_PARAMS = dict(asn1Spec=PConst(None), encodeFun=PConst(None), options=POptions())
+
+BOOLEAN_ENC = Contract(
+    id='ber.encoder::BooleanEncoder.encodeValue', file=F, qual='BooleanEncoder.encodeValue', properties=['C01', 'C03'],
+    params=dict(self=PObj('BooleanEncoder'), value=PBool(), **CODEC_PARAMS),
+    ensures=[('content', 'result[0] == ((1,) if value else (0,))'), ('primitive', 'result[1] is False'),
+             ('ints', 'result[2] is False and X.inr(result[0])')],
+    note='BER: TRUE is any non-zero octet, the encoder emits 01')
+
+CER_BOOLEAN_ENC = Contract(
+    id='cer.encoder::BooleanEncoder.encodeValue', file='pyasn1/codec/cer/encoder.py', qual='BooleanEncoder.encodeValue',
+    properties=['C02', 'C03'],
+    params=dict(self=PObj('BooleanEncoder'), value=PInt(), **CODEC_PARAMS),
+    # X.690 11.1: in CER/DER TRUE is FF
+    ensures=[('canonical-true', 'result[0] == ((0,) if value == 0 else (255,))'), ('primitive', 'result[1] is False'),
+             ('ints', 'result[2] is False and X.inr(result[0])')])
+
+NULL_ENC = Contract(
+    id='ber.encoder::NullEncoder.encodeValue', file=F, qual='NullEncoder.encodeValue', properties=['C01', 'C03'],
+    params=dict(self=PObj('NullEncoder'), value=PConst(None), **CODEC_PARAMS),
+    ensures=[('empty', 'len(result[0]) == 0'), ('primitive', 'result[1] is False')])
+
+INTEGER_ENC = Contract(
+    id='ber.encoder::IntegerEncoder.encodeValue', file=F, qual='IntegerEncoder.encodeValue', properties=['C01', 'C03'],
+    params=dict(self=PObj('IntegerEncoder', supportCompactZero=PConst(False)), value=PInt(), **CODEC_PARAMS),
+    calls={'to_bytes': _CC(_integer.TO_BYTES_SIGNED, params=['value'])},
+    # X.690 8.3: minimal two's complement; zero is one octet 00
+    ensures=[('denotes', 'X.twos_val(result[0]) == value'),
+             ('minimal', 'len(result[0]) == X.twos_len(value)'),
+             ('primitive', 'result[1] is False'), ('octets', 'X.inr(result[0])')])
+
+
+def _oid_value(ex, env):
+    return Obj('ObjectIdentifier', {'arcs': env['arcs']}, {'asTuple': lambda ex2, self: self.fields['arcs']}, name='value')
+
+
+OID_ENC = Contract(
+    id='ber.encoder::ObjectIdentifierEncoder.encodeValue', file=F, qual='ObjectIdentifierEncoder.encodeValue',
+    properties=['C01', 'C03', 'C08'],
+    params=dict(self=PObj('ObjectIdentifierEncoder'), arcs=PIntTuple(), value=PDerived(_oid_value), **CODEC_PARAMS),
+    # type invariant of ObjectIdentifier values (established by ObjectIdentifier.prettyIn, assumed here): arcs >= 0
+    requires=['len(arcs) < 2 or arcs[1] >= 0'],
+    ensures=[
+        # X.690 8.19: first subidentifier is 40*arc1 + arc2, then one base-128 subidentifier per arc
+        ('first-two-arcs-packed', 'oid == X.cat(X.seq(40 * arcs[0] + arcs[1]), X.sub(arcs, 2, len(arcs)))'),
+        ('subidentifiers', 'result[0] == X.b128cat(oid, 0, len(oid))'),
+        ('valid-arcs-only', '(arcs[0] == 0 or arcs[0] == 1 or arcs[0] == 2) and arcs[1] >= 0 and (arcs[0] == 2 or arcs[1] <= 39)'),
+        ('primitive', 'result[1] is False and result[2] is False'), ('octets', 'X.inr(result[0])')],
+    may_raise={'PyAsn1Error': True},
+    loops={0: Loop(index='i', invariant=['octets == X.b128cat(oid, 0, i)', 'X.inr(octets)', 'isinstance(octets, tuple)']),
+           1: Loop(invariant=['subOid >= 0', 'X.b128(oid[i]) == X.cat(X.b128hi(subOid), res)', 'X.inr(res)',
+                              'isinstance(res, tuple)', 'oid[i] > 127'],
+                   variant='subOid')},
+    external=['first-two-arcs-packed', 'subidentifiers', 'valid-arcs-only', 'octets'])
+
+
+# ---- SEQUENCE / SET content: absent OPTIONAL and DEFAULT-equal members are left out (C03, C04) -----------------
+NCOMP = 3
+
+
+def _record(ex, env):
+    import z3 as _z
+    comps, nts = [], []
+    for i in range(NCOMP):
+        dflt = Obj('Default', {}, name='default%d' % i)
+        eqd = _z.Bool('equalsDefault.%d' % i)
+        comps.append(Obj('Component', {'isValue': _z.Bool('isValue.%d' % i)},
+                         {'__eq__': (lambda e: (lambda ex2, self, other: e))(eqd)}, name='component%d' % i))
+        nts.append(Obj('NamedType', {'isOptional': _z.Bool('isOptional.%d' % i), 'isDefaulted': _z.Bool('isDefaulted.%d' % i),
+                                     'asn1Object': dflt, 'openType': None}, name='namedType%d' % i))
+    named = Obj('NamedTypes', {'__truthy__': True}, {'__getitem__': lambda ex2, self, i: nts[concrete_(i)]}, name='namedTypes')
+    return Obj('Sequence', {'isInconsistent': False, 'componentType': named},
+               {'values': lambda ex2, self: Tup(list(comps), 'list')}, name='value')
+
+
+def concrete_(i):
+    from pyvc.core import concrete
+    return concrete(i)
+
+
+def _encode_component(ex, component, asn1Spec=None, **options):
+    import z3 as _z
+    from pyvc.core import S
+    i = int(component.name[-1])
+    z = _z.Const('chunk%d' % i, S)
+    ex.assume(inr(z))
+    return SeqV(z, 'bytes')
+
+
+def _present(i):
+    return '(not (isOptional%d and not isValue%d) and not (isDefaulted%d and equalsDefault%d))' % (i, i, i, i)
+
+
+SEQ_ENC = Contract(
+    id='ber.encoder::SequenceEncoder.encodeValue[value-object]', file=F, qual='SequenceEncoder.encodeValue',
+    properties=['C03', 'C04', 'C01'],
+    params=dict(self=PObj('SequenceEncoder', omitEmptyOptionals=PBool()), value=PDerived(_record), asn1Spec=PConst(None),
+                encodeFun=PConst(FnV(_encode_component, 'encodeFun')), options=POptions()),
+    globals=dict({'chunk%d' % i: SeqV(__import__('z3').Const('chunk%d' % i, __import__('z3').SeqSort(__import__('z3').IntSort())), 'bytes') for i in range(NCOMP)},
+                 **{('%s%d' % (n, i)): __import__('z3').Bool('%s.%d' % (n, i)) for i in range(NCOMP)
+                    for n in ('isOptional', 'isDefaulted', 'isValue', 'equalsDefault')}),
+    ensures=[
+        # X.690 8.9 / 11.5: components in declaration order; an OPTIONAL component without a value and a DEFAULT component
+        # equal to its default are not encoded -- whether the default was set explicitly or left out
+        ('members-in-order-omitting-absent-and-default',
+         'result[0] == X.cat(' + ', '.join('(chunk%d if %s else X.empty())' % (i, _present(i)) for i in range(NCOMP)) + ')'),
+        ('constructed', 'result[1] is True and result[2] is True')],
+    external=['members-in-order-omitting-absent-and-default'])
+
+
+
+
+# ---- SingleItemEncoder.__call__: the fixed modes of the CER/DER subclasses override whatever the caller passes ----
+from z3 import Int
+
+
+def _codec_map(name):
+    """model of the codec tables: a lookup either finds the (opaque) codec registered under the key or raises KeyError"""
+    def getitem(ex, self, key):
+        from z3 import Bool
+        if ex.choose(ex.fresh(name + '.has', Bool('x').sort()), name + '-has'):
+            return self.fields['codec']
+        raise _Raise(ExcV('KeyError'))
+    return getitem
+
+
+def _concrete_encode(ex, value, asn1Spec, encodeFun, **options):
+    """assumed contract of AbstractItemEncoder.encode (under its own contract above): returns octets or raises"""
+    from z3 import Bool
+    from pyvc.core import S
+    if ex.choose(ex.fresh('encode.raises', Bool('x').sort()), 'encode-raises'):
+        raise _Raise(ExcV('PyAsn1Error'))
+    z = ex.fresh('encode.substrate', S)
+    ex.assume(inr(z))
+    return SeqV(z, 'bytes')
+
+
+def _mk_item_encoder(ex, env):
+    by_type = Obj('CodecByType', {'codec': 'TYPE-CODEC'}, name='byType')
+    by_tag = Obj('CodecByTag', {'codec': 'TAG-CODEC'}, name='byTag')
+    return Obj('SingleItemEncoder', {
+        'fixedDefLengthMode': env['fixedDef'], 'fixedChunkSize': env['fixedChunk'],
+        '_typeMap': Obj('Map', {'codec': Obj('Codec', {}, {'encode': _concrete_encode}, name='typeCodec')},
+                        {'__getitem__': _codec_map('typeMap')}, name='typeMap'),
+        '_tagMap': Obj('Map', {'codec': Obj('Codec', {}, {'encode': _concrete_encode}, name='tagCodec')},
+                       {'__getitem__': _codec_map('tagMap')}, name='tagMap')}, name='self')
+
+
+def _mk_asn1(name):
+    def mk(ex, env):
+        return Obj('Asn1Item', {'typeId': Int(name + '.typeId'),
+                                'tagSet': Obj('TagSet', {'baseTag': Obj('Tag', {}, name=name + '.baseTag')},
+                                              name=name + '.tagSet')}, name=name)
+    return mk
+
+
+def _tagset_ctor(ex, base, *tags):
+    return Obj('TagSet', {'baseTag': base, 'superTags': Tup(list(tags))}, name='baseTagSet')
+
+
+ITEM_ENCODER_CALL = Contract(
+    id='ber.encoder::SingleItemEncoder.__call__', file=F, qual='SingleItemEncoder.__call__',
+    properties=['C02', 'C03', 'C01'],
+    params=dict(fixedDef=POneOf(None, True, False), fixedChunk=POpt(PInt()),
+                self=PDerived(_mk_item_encoder),
+                value=PDerived(_mk_asn1('value')),
+                spec_given=PBool(),
+                asn1Spec=PDerived(lambda ex, env: _mk_asn1('asn1Spec')(ex, env) if ex.choose(env['spec_given'], 'spec') else None),
+                options=POptions(defMode=PBool(), maxChunkSize=PInt(), ifNotEmpty=PBool())),
+    globals={'tag': {'TagSet': FnV(_tagset_ctor, 'tag.TagSet')}},
+    ensures=[
+        # X.690 10.1 / 9.1-9.2 as implemented: the class attributes of the cer/der encoders win over the caller
+        ('fixed-definite-mode', 'self.fixedDefLengthMode is not None ==> '
+                                'last_kwargs("concreteEncoder.encode").get("defMode", "absent") is self.fixedDefLengthMode'),
+        ('fixed-chunk-size', 'self.fixedChunkSize is not None ==> '
+                             'last_kwargs("concreteEncoder.encode").get("maxChunkSize", "absent") == self.fixedChunkSize'),
+        ('caller-mode-kept', 'self.fixedDefLengthMode is None ==> '
+                             'last_kwargs("concreteEncoder.encode").get("defMode", "absent") == '
+                             'old(options).get("defMode", "absent")'),
+        ('caller-chunk-kept', 'self.fixedChunkSize is None ==> '
+                              'last_kwargs("concreteEncoder.encode").get("maxChunkSize", "absent") == '
+                              'old(options).get("maxChunkSize", "absent")'),
+        ('other-options-kept', 'last_kwargs("concreteEncoder.encode").get("ifNotEmpty", "absent") == '
+                               'old(options).get("ifNotEmpty", "absent")'),
+        ('recursion-through-self', 'last_args("concreteEncoder.encode")[0] is value and '
+                                   'last_args("concreteEncoder.encode")[1] is asn1Spec and '
+                                   'last_args("concreteEncoder.encode")[2] is self'),
+        ('returns-codec-output', 'result == last_result("concreteEncoder.encode")'),
+    ],
+    calls={'concreteEncoder.encode': _concrete_encode},
+    may_raise={'PyAsn1Error': True},
+    note='cer.encoder.SingleItemEncoder and der.encoder.SingleItemEncoder only override the two class attributes '
+         '(obligation group "dispatch" checks that); with them set the codec below never sees the caller\'s '
+         'defMode/maxChunkSize')
+
+CONTRACTS = [ENCODE_TAG, ENCODE_LENGTH, ENCODE, BOOLEAN_ENC, CER_BOOLEAN_ENC, NULL_ENC, INTEGER_ENC, OID_ENC, SEQ_ENC,
+             ITEM_ENCODER_CALL]
